@@ -45,6 +45,10 @@ type SchedCheck struct {
 	NewMonitor func() *mon.Monitor
 	// NonTrivialFromStats decides non-triviality from the merged counters (optional).
 	NonTrivialFromStats func(counters map[string]int) bool
+	// StopCase, if set, is asked after every cycle whether the remaining cycles can be skipped.
+	StopCase func() bool
+	// CaseVerdict, if set, may turn a case without violations into an inconclusive one (returns a note).
+	CaseVerdict func() string
 	// PanicIsViolation: a panic inside a cycle refutes this property (C10); otherwise the case is inconclusive.
 	PanicIsViolation bool
 }
@@ -171,6 +175,9 @@ func (s *SchedCheck) RunGenerated(c *spec.Case, env *run.Env) run.CaseResult {
 		if cr.Panic != "" {
 			break
 		}
+		if s.StopCase != nil && s.StopCase() {
+			break
+		}
 	}
 	if s.AfterCase != nil {
 		viols = append(viols, s.AfterCase(c, hist, stats)...)
@@ -195,6 +202,12 @@ func (s *SchedCheck) RunGenerated(c *spec.Case, env *run.Env) run.CaseResult {
 	if panicked && len(viols) == 0 {
 		res.Verdict = run.Inconclusive
 		res.Note = "scheduler cycle panicked (see C10)"
+	}
+	if s.CaseVerdict != nil && len(viols) == 0 && res.Verdict == run.Held {
+		if note := s.CaseVerdict(); note != "" {
+			res.Verdict = run.Inconclusive
+			res.Note = note
+		}
 	}
 	if len(viols) > 0 {
 		res.Verdict = run.Violated
